@@ -145,6 +145,31 @@ PairRecs == { [id |-> PairId(kj[1], kj[2]), l |-> Pkts[kj[1]].l, p |-> Conc(kj[1
 PairsIn == [e \in {"plain", "unsafe", "unsafeAny"} |-> { x \in PairRecs : HasL(e, x.l) }]
 Pairs(env) == { x.id : x \in PairsIn[env] }
 
+\* The port dimension (C16): packet shapes whose looked-at port lies inside, at both edges and just outside every
+\* port specification of PortsSys below, port 0 (a legal port number that is not `any'), packets without ports
+\* (second and further fragments), for tcp / udp / icmp / another protocol. lp = rp except in the two shapes that
+\* carry port 0 on the side the rule does not look at. Every shape is paired with pa and pb.
+MaxPort == 65535
+PPortsTcp == <<0, 1, 2, 79, 80, 81, 85, 90, 91, 100, 101, 64999, 65000, 65100, 65534, 65535>>
+PPortsUdp == <<0, 1, 80, 85, 65000, 65535>>
+PPkts == [i \in DOMAIN PPortsTcp |-> Pk("tcp", PPortsTcp[i], PPortsTcp[i], FALSE, "vpn", "vpn")]
+         \o << Pk("tcp", 0, 0, TRUE, "vpn", "vpn"), Pk("tcp", 80, 80, TRUE, "vpn", "vpn"),
+               Pk("tcp", 80, 0, FALSE, "vpn", "vpn"), Pk("tcp", 0, 80, FALSE, "vpn", "vpn") >>
+         \o [i \in DOMAIN PPortsUdp |-> Pk("udp", PPortsUdp[i], PPortsUdp[i], FALSE, "vpn", "vpn")]
+         \o << Pk("udp", 0, 0, TRUE, "vpn", "vpn"),
+               Pk("icmp", 0, 7, FALSE, "vpn", "vpn"), Pk("icmp", 80, 80, FALSE, "vpn", "vpn"), Pk("icmp", 0, 0, TRUE, "vpn", "vpn"),
+               Pk("other", 0, 0, FALSE, "vpn", "vpn"), Pk("other", 80, 80, FALSE, "vpn", "vpn") >>
+PConc(k, j) == [proto |-> PPkts[k].proto, lp |-> PPkts[k].lp, rp |-> PPkts[k].rp, frag |-> PPkts[k].frag,
+                la |-> LAddr[PPkts[k].l], ra |-> RAddr(PeerIds[j], PPkts[k].r)]
+PPairRecs == { [id |-> PairId(kj[1], kj[2]), l |-> PPkts[kj[1]].l, p |-> PConc(kj[1], kj[2]),
+                peer |-> Peers[PeerIds[kj[2]]], ca |-> PeerCA(PeerIds[kj[2]])] : kj \in (DOMAIN PPkts) \X {1, 2} }
+PPairsIn == [e \in {"plain", "unsafe", "unsafeAny"} |-> PPairRecs]       \* every shape is vpn -> vpn
+\* the pair set a vector is evaluated on
+PairSetOf(kind, env) == IF kind = "prules" THEN PPairsIn[env] ELSE PairsIn[env]
+\* every port a packet of the universe can present to a port table (0 = the `any' entry, -1 = the `fragment' entry)
+PortUniverse == {0, -1, 7, 4000} \cup {Pkts[k].lp : k \in DOMAIN Pkts} \cup {Pkts[k].rp : k \in DOMAIN Pkts}
+                \cup {PPkts[k].lp : k \in DOMAIN PPkts} \cup {PPkts[k].rp : k \in DOMAIN PPkts}
+
 -----------------------------------------------------------------------------
 (* 1. REFERENCE: rule semantics as documented (examples/config.yml)        *)
 (*    "port AND proto AND (ca_sha OR ca_name) AND (host OR group OR groups   *)
@@ -159,14 +184,22 @@ PktPort(p, dir) == IF dir = "in" THEN p.lp ELSE p.rp
 ProtoOK(r, p) == r.proto = "any" \/ (r.proto = "icmp" /\ IsIcmp(p)) \/ r.proto = p.proto
 
 \* a port specification is ignored if proto is icmp; 0 or any is any
-PortIsAny(r) == r.proto = "icmp" \/ r.lo = 0
-\* `icmpSpecific' is the verdict for an ICMP packet against a proto:any rule with a specific port,
-\* range or fragment: the statement ("ICMP ignores ports") does not decide it (lo: FALSE, hi: TRUE).
-PortOK(r, p, dir, icmpSpecific) ==
+PortIsAny(r) == r.proto = "icmp" \/ (r.lo = 0 /\ r.hi = 0)
+\* AddRule(.., 0, n, ..) with n > 0 has no documented meaning ("0-n": any, or the ports 0..n; the configuration path
+\* turns it into any before it reaches AddRule): what only one of the two readings admits is not decided
+ZeroRange(r) == r.lo = 0 /\ r.hi > 0
+\* `und' is the verdict on the classes the statement does not decide (lo: FALSE, hi: TRUE): an ICMP packet against a
+\* proto:any rule with a specific port, range or fragment ("ICMP ignores ports"), and the ZeroRange rules.
+\* Everything else is what examples/config.yml and the rule grammar say: a port range matches the ports inside it
+\* (bounds included) and nothing else - in particular not port 0 and not a packet without ports; second and
+\* further fragments carry no port and match only `fragment' and `any' rules.
+PortOK(r, p, dir, und) ==
     IF PortIsAny(r) THEN TRUE
-    ELSE IF IsIcmp(p) THEN icmpSpecific
-    ELSE IF p.frag THEN r.lo = -1              \* no port available in second and further fragments
-    ELSE r.lo # -1 /\ r.lo <= PktPort(p, dir) /\ PktPort(p, dir) <= r.hi
+    ELSE IF IsIcmp(p) THEN und
+    ELSE IF p.frag THEN r.lo = -1 \/ (ZeroRange(r) /\ und)
+    ELSE /\ r.lo # -1
+         /\ \/ (r.lo <= PktPort(p, dir) /\ PktPort(p, dir) <= r.hi)
+            \/ (ZeroRange(r) /\ und)
 
 CAOK(r, ca) == \/ (r.caName = "" /\ r.caSha = "")
                \/ (r.caSha # "" /\ r.caSha = ca.sha)
@@ -247,9 +280,11 @@ FCMatch(fcs, p, peer, ca) ==                                      \* FirewallCA.
                     \/ FRMatch(At(fc.shas, ca.sha), p, peer)
                     \/ FRMatch(At(fc.names, ca.name), p, peer)
 
-\* firewallPort.addRule: one FirewallCA per port of the range
+\* firewallPort.addRule: one FirewallCA per port of the range. The table is kept for the ports of PortUniverse only
+\* (the entries no packet of the universe can look up are left out: a rule 1-65535 has 65535 of them)
 FPAdd(fp, lo, hi, r, env) ==
-    [x \in DOMAIN fp \cup (lo..hi) |-> IF x \in lo..hi THEN FCAdd(Opt(At(fp, x), EmptyFC), r, env) ELSE fp[x]]
+    LET ks == {x \in PortUniverse : lo <= x /\ x <= hi}
+    IN  [x \in DOMAIN fp \cup ks |-> IF x \in ks THEN FCAdd(Opt(At(fp, x), EmptyFC), r, env) ELSE fp[x]]
 FPMatch(fp, p, peer, ca, dir) ==                                  \* firewallPort.match
     IF IsIcmp(p) THEN FCMatch(At(fp, 0), p, peer, ca)
     ELSE LET port == IF p.frag THEN -1 ELSE PktPort(p, dir)
@@ -389,21 +424,51 @@ BucketPairInputs(u) ==
         e \in (IF Thorough THEN {"plain", "unsafe", "unsafeAny"} ELSE {"unsafe"}), b \in Buckets,
         x \in { x \in SelNest \X SelNest \X LNest \X LNest : x[1] # x[2] /\ x[3] # x[4] } }
 
+\* The port dimension, systematically (kind "prules": evaluated on the port pairs PPairsIn): any, fragment, single ports
+\* (a middle one, the lowest, the highest), a narrow range, a range that starts at 1, a range that ends at 65535, the
+\* range that spans the whole port space (which is NOT `any': it matches neither port 0 nor a packet without ports),
+\* the two ranges one port short of it, and ranges written from 0.
+PortsSysQ == {<<0, 0>>, <<-1, -1>>, <<80, 80>>, <<1, 1>>, <<MaxPort, MaxPort>>, <<80, 90>>, <<1, 100>>, <<65000, MaxPort>>,
+              <<1, MaxPort>>, <<2, MaxPort>>, <<1, MaxPort - 1>>, <<0, 90>>}
+PortsSys  == PortsSysQ \cup (IF Thorough THEN {<<0, MaxPort>>, <<2, MaxPort - 1>>, <<81, 65000>>} ELSE {})
+\* (a rule over nearly the whole port space costs the real AddRule 65 thousand table entries: the quick tier combines
+\* the neighbours of the full range with one selector only)
+PortsNearFull == {<<2, MaxPort>>, <<1, MaxPort - 1>>, <<0, MaxPort>>, <<2, MaxPort - 1>>}
+\* selector x CA of the single-rule port vectors: pa carries every selector, pb only `any'
+PortSelCA == {<<s, <<"", "">>>> : s \in SelFew} \cup {<<<<<<>>, "any", NoC>>, <<"ca-one", "">>>>}
+PortSelCAOf(ps) == IF ~Thorough /\ ps \in PortsNearFull THEN {<<<<<<>>, "any", NoC>>, <<"", "">>>>} ELSE PortSelCA
+PortEnvs  == IF Thorough THEN {"plain", "unsafe"} ELSE {"plain"}
+PSingle(d, pr, ps, sc, e) == [kind |-> "prules", env |-> e, rules |-> <<R(d, pr, ps, sc[1][1], sc[1][2], sc[1][3], NoC, sc[2])>>]
+\* two rules in one direction / protocol table with different port specifications: the first names host-a (pa), the
+\* second host-b (pb) - or both any host -, so that each peer's verdicts follow one rule's ports only and an entry
+\* shared between port buckets (a range folded into `any', a bucket overwritten) shows
+PortsPairQ == {<<0, 0>>, <<-1, -1>>, <<80, 80>>, <<80, 90>>, <<1, 100>>, <<65000, MaxPort>>, <<1, MaxPort>>}
+PortsPair  == IF Thorough THEN PortsSys ELSE PortsPairQ
+PortBuckets == IF Thorough THEN Dirs \X {"any", "tcp", "udp"} ELSE {<<"in", "tcp">>, <<"out", "any">>}
+PortPairHosts == {<<"host-a", "host-b">>, <<"any", "any">>}
+PPair(b, p1, p2, hs, e) == [kind |-> "prules", env |-> e,
+                            rules |-> << R(b[1], b[2], p1, <<>>, hs[1], NoC, NoC, <<"", "">>),
+                                         R(b[1], b[2], p2, <<>>, hs[2], NoC, NoC, <<"", "">>) >>]
+
 \* expected verdicts of a rule sequence: for both directions the pairs that must / may be allowed
+\* (P = the pair records the vector is evaluated on)
 HasDir(rules, dir) == \E i \in DOMAIN rules : rules[i].dir = dir
-AllowSet(rules, envId, dir, hi) ==
+AllowSetOn(P, rules, envId, dir, hi) ==
     IF ~HasDir(rules, dir) THEN {}
-    ELSE { x.id : x \in { x \in PairsIn[envId] :
+    ELSE { x.id : x \in { x \in P :
              IF hi THEN AllowedHi(rules, x.p, x.peer, x.ca, Envs[envId], dir)
                    ELSE AllowedLo(rules, x.p, x.peer, x.ca, Envs[envId], dir) } }
-TableSet(rules, envId, dir) ==
+AllowSet(rules, envId, dir, hi) == AllowSetOn(PairsIn[envId], rules, envId, dir, hi)
+TableSetOn(P, rules, envId, dir) ==
     IF ~HasDir(rules, dir) THEN {}
     ELSE LET fw == Table(rules, Envs[envId])
-         IN  { x.id : x \in { x \in PairsIn[envId] : TableMatch(fw, x.p, x.peer, x.ca, dir) } }
-ExpRules(rules, envId) ==
-    LET loIn == AllowSet(rules, envId, "in", FALSE)    hiIn == AllowSet(rules, envId, "in", TRUE)
-        loOut == AllowSet(rules, envId, "out", FALSE)  hiOut == AllowSet(rules, envId, "out", TRUE)
+         IN  { x.id : x \in { x \in P : TableMatch(fw, x.p, x.peer, x.ca, dir) } }
+TableSet(rules, envId, dir) == TableSetOn(PairsIn[envId], rules, envId, dir)
+ExpRulesOn(P, rules, envId) ==
+    LET loIn == AllowSetOn(P, rules, envId, "in", FALSE)    hiIn == AllowSetOn(P, rules, envId, "in", TRUE)
+        loOut == AllowSetOn(P, rules, envId, "out", FALSE)  hiOut == AllowSetOn(P, rules, envId, "out", TRUE)
     IN  [allowIn |-> loIn, eitherIn |-> hiIn \ loIn, allowOut |-> loOut, eitherOut |-> hiOut \ loOut]
+ExpRules(rules, envId) == ExpRulesOn(PairsIn[envId], rules, envId)
 
 Universe == [kind |-> "universe"]
 
@@ -704,20 +769,27 @@ vars == <<in, exp, done>>
 
 ExpUniverse == [pkts |-> Pkts, peerIds |-> PeerIds, peers |-> Peers, cas |-> CAs, envs |-> Envs, envIds |-> EnvIds,
                 laddr |-> LAddr, pairs |-> [e \in {"plain", "unsafe", "unsafeAny"} |-> Pairs(e)], rules17 |-> RuleSets17,
+                ppkts |-> PPkts, ppairs |-> [e \in {"plain", "unsafe", "unsafeAny"} |-> {x.id : x \in PPairsIn[e]}],
                 raddr |-> [j \in DOMAIN PeerIds |->
                              [cls \in {"vpn", "vpn6", "unsafe", "vpnout", "ext", "innet", "me"} |-> RAddr(PeerIds[j], cls)]]]
 
 Expected(i) == CASE i.kind = "universe" -> ExpUniverse
                  [] i.kind = "rules"    -> ExpRules(i.rules, i.env)
+                 [] i.kind = "prules"   -> ExpRulesOn(PPairsIn[i.env], i.rules, i.env)
                  [] i.kind = "attack"   -> Exp17(i)
                  [] i.kind = "cfg"      -> ExpCfg(i.cfg, i.dir, i.env)
 Pending == /\ exp = <<>> /\ done = FALSE
 
-InitC16Single == (in = Universe \/ in \in SingleQuickA(0) \/ in \in SingleQuickB(0)) /\ Pending
+\* the port dimension (enumerated in Init: no big sets)
+InitPortSingle == \E d \in Dirs, pr \in Protos : \E ps \in PortsSys : \E sc \in PortSelCAOf(ps), e \in PortEnvs :
+                      in = PSingle(d, pr, ps, sc, e)
+InitPortPair == \E b \in PortBuckets, p1 \in PortsPair : \E p2 \in PortsPair \ {p1}, hs \in PortPairHosts :
+                    in = PPair(b, p1, p2, hs, "plain")
+InitC16Single == (in = Universe \/ in \in SingleQuickA(0) \/ in \in SingleQuickB(0) \/ InitPortSingle) /\ Pending
 \* the thorough lattice in three parts (one TLC run each)
-InitC16SingleTA == (in = Universe \/ in \in SingleThoroughA(0)) /\ Pending
+InitC16SingleTA == (in = Universe \/ in \in SingleThoroughA(0) \/ InitPortSingle) /\ Pending
 InitC16SingleTB == (in = Universe \/ in \in SingleThoroughB(0) \/ in \in SingleThoroughC(0)) /\ Pending
-InitC16Multi  == (in = Universe \/ in \in MultiInputs(0) \/ in \in SiblingInputs(0) \/ in \in BucketPairInputs(0)) /\ Pending
+InitC16Multi  == (in = Universe \/ in \in MultiInputs(0) \/ in \in SiblingInputs(0) \/ in \in BucketPairInputs(0) \/ InitPortPair) /\ Pending
 InitC17       == (in = Universe \/ in \in Inputs17(0)) /\ Pending
 InitC22       == /\ \/ in = Universe
                     \/ in \in CfgPort(0) \/ in \in CfgOne(0) \/ in \in CfgLists(0)
@@ -728,9 +800,9 @@ Next == ~done /\ done' = TRUE /\ exp' = Expected(in) /\ in' = in
 
 (* 3. LINK invariants, checked by TLC on every vector *)
 \* the nested tables decide exactly what the documented semantics decides (within the undecided ICMP class)
-LinkTable == (done /\ in.kind = "rules") =>
+LinkTable == (done /\ in.kind \in {"rules", "prules"}) =>
     \A dir \in Dirs :
-       LET t == TableSet(in.rules, in.env, dir)
+       LET t == TableSetOn(PairSetOf(in.kind, in.env), in.rules, in.env, dir)
            lo == IF dir = "in" THEN exp.allowIn ELSE exp.allowOut
            ei == IF dir = "in" THEN exp.eitherIn ELSE exp.eitherOut
        IN  lo \subseteq t /\ t \subseteq lo \cup ei
